@@ -613,7 +613,7 @@ func (x *client) setFunnel(ruleID string) {
 		}
 		// the mode passed is the caller's last parameter
 		last := s.Caller.Params[len(s.Caller.Params)-1]
-		r.Check(args[2] == ssa.Value(last) && args[0] == ssa.Value(s.Caller.Params[0]), "set from "+fnName(s.Caller), s.Instr.Pos(), "passes its own WaitMode", fnName(s.Caller)+" does not pass its WaitMode parameter to set()")
+		r.Check(args[2] == ssa.Value(last) && isParamValue(args[0], s.Caller.Params[0]), "set from "+fnName(s.Caller), s.Instr.Pos(), "passes its own WaitMode", fnName(s.Caller)+" does not pass its WaitMode parameter to set()")
 		// and returns set's result unchanged
 		for _, ret := range retEdges(s.Caller) {
 			r.Check(ret.Results[0] == s.Instr.(ssa.CallInstruction).Value(), "result of set returned by "+fnName(s.Caller), ret.Pos(), "", fnName(s.Caller)+" does not return set()'s verdict")
@@ -973,7 +973,7 @@ func propC18(r *Run, w *World) {
 		r.Check(len(fn.Blocks) == 1, "serialize is straight-line", fn.Pos(), "", "serialize has branches")
 		var msgLoc string
 		for _, st := range storesOf(fn) {
-			if st.Val == ssa.Value(fn.Params[0]) {
+			if isParamValue(st.Val, fn.Params[0]) {
 				msgLoc = AddrTerm(st.Addr)
 			}
 		}
@@ -1079,7 +1079,7 @@ func propC18(r *Run, w *World) {
 		r.Check(okA, "one atomic add", fn.Pos(), "atomic.AddUint32(&c.seq, 1)", "Send does not take its sequence from exactly one atomic.AddUint32(&c.seq, 1)")
 		var msgLoc string
 		for _, st := range storesOf(fn) {
-			if st.Val == ssa.Value(fn.Params[1]) {
+			if isParamValue(st.Val, fn.Params[1]) {
 				msgLoc = AddrTerm(st.Addr)
 			}
 		}
@@ -1140,7 +1140,7 @@ func propC18(r *Run, w *World) {
 			need := []string{"rf#2 == nil", "rf#0 >= " + hdr, "is(rf#1, *syscall.SockaddrNetlink)", "rf#1.(*syscall.SockaddrNetlink).Pid == 0"}
 			var parser *ssa.Call
 			instrsOf(fn, func(in ssa.Instruction) {
-				if c, ok := in.(*ssa.Call); ok && c.Call.Value == ssa.Value(fn.Params[2]) {
+				if c, ok := in.(*ssa.Call); ok && isParamValue(c.Call.Value, fn.Params[2]) {
 					parser = c
 				}
 			})
